@@ -65,8 +65,10 @@ func buildAlphabet() []Op {
 			mk("reset", "reset", "", "")
 			mk("login.k2.v2", "login", "k2", "v2") // Regenerate, then Set
 			if api == "st" {
-				mk("touch", "touch", "", "")           // Get + Save + Release, no change
-				mk("setns.k1.v2", "setns", "k1", "v2") // Set without Save
+				mk("touch", "touch", "", "")                   // Get + Save + Release, no change
+				mk("setns.k1.v2", "setns", "k1", "v2")         // Set without Save
+				mk("saveregen.k1.v1", "saveregen", "k1", "v1") // Set, Save, Regenerate (then Save) in one request
+				mk("regendestroy", "regendestroy", "", "")     // Regenerate, Save, Destroy in one request
 			}
 		}
 	}
@@ -132,7 +134,7 @@ func fullAlphabet() []int {
 func coreOps() []int {
 	return names(
 		"A.mw.get", "A.mw.set.k1.v1", "A.mw.del.k1", "A.mw.destroy", "A.mw.regen", "A.mw.reset",
-		"A.st.get", "A.st.set.k2.v1", "A.st.destroy", "A.st.regen", "A.st.reset",
+		"A.st.get", "A.st.set.k2.v1", "A.st.destroy", "A.st.regen", "A.st.reset", "A.st.saveregen.k1.v1", "A.st.regendestroy",
 		"B.mw.get", "B.mw.set.k1.v2", "B.st.get", "B.st.set.k2.v1",
 		"M.mw.evil", "M.mw.destroyed", "M.mw.stolenA",
 		"adm.delete.A",
